@@ -1,7 +1,7 @@
-"""Deterministic fuel: run a callable while counting the Python function calls made inside cobyqa/
-(sys.settrace 'call' events) and abort it when a budget is exceeded.  Used to turn a wall-clock
-watchdog hit (inconclusive by itself) into a reproducible verdict: a case that consumes the whole
-budget without making the progress event reset it is reported as not terminating."""
+"""Deterministic fuel: run a callable while counting the *line events* executed inside cobyqa/
+(sys.settrace; frames outside cobyqa are not traced) and abort it when a budget is exceeded.  Used
+to turn a wall-clock watchdog hit (inconclusive by itself) into a reproducible verdict: a case that
+consumes the whole budget without the progress event resetting it is reported as not terminating."""
 import sys
 
 
@@ -19,12 +19,18 @@ class Fuel:
         """Progress event (e.g. a new evaluation of the user functions)."""
         self.used = 0
 
-    def tracer(self, frame, event, arg):
-        if event == "call" and "/cobyqa/" in frame.f_code.co_filename:
+    def _local(self, frame, event, arg):
+        if event == "line":
             self.used += 1
             self.total += 1
             if self.used > self.limit:
                 raise FuelExhausted()
+        return self._local
+
+    def tracer(self, frame, event, arg):
+        if "/cobyqa/" in frame.f_code.co_filename:
+            self.used += 1
+            return self._local
         return None
 
     def run(self, fn):
